@@ -1,4 +1,85 @@
-From MrVerif Require Import Model.CG Model.PowerIter Proofs.PowerIterProofs.
-From Coq Require Import QArith List. Import ListNotations.
-Example C19_example : matrix_normQ [[1#1;1#1]] = (1,1)%Z.
-Proof. vm_compute. reflexivity. Qed.
+(* C19 - Operator-norm estimates are scale-free and respect the stated bounds.
+
+   Model: Model/PowerIter.v (one polymorphic definition of LinearOperator.operator_norm as repaired - normalised start
+   vector - working on squared estimates q = <u,Gu>/<u,u>, G = A^H A; and the combination rule of
+   LinearOperatorMatrix.operator_norm on squares).  Executed on exact rationals and compared with the implementation by
+   harness/props/C19.py on every run.  The estimate returned by the code is sqrt(q); all statements are on squares.
+
+   Not attempted: convergence of the estimates to the norm for generic start vectors (a spectral argument); the oracle of
+   the harness only checks it loosely on the implementation.  The sum-of-squares bound is proved for the 1x2 layout and the
+   vertical rule for any number of rows (general r x c grids: not proved, hence the suffix _partial). *)
+From Coq Require Import List Bool Arith Field Reals.
+Import ListNotations.
+From MrVerif Require Import Model.CG Model.PowerIter Proofs.CGProofs Proofs.PowerIterProofs.
+
+(* the whole outcome of the power iteration (error kind, returned squared estimates per batch element, callback sequence)
+   is the same for the start vectors c * v0 and v0, for every c <> 0, every field, every family of homogeneous operators,
+   every budget and every stopping test that looks at the estimates only *)
+Theorem C19_scale_free : forall (F : Type) (f0 f1 : F) fadd fmul fsub fopp fdiv finv,
+  field_theory f0 f1 fadd fmul fsub fopp fdiv finv (@eq F) ->
+  forall feqb : F -> F -> bool, (forall a b, feqb a b = true <-> a = b) ->
+  forall (close : F -> F -> bool) (c : F), c <> f0 ->
+  forall Gs : list (list F -> list F), Forall (homogeneous F fmul) Gs ->
+  forall v0s n,
+    operator_norm_sq F f0 fadd fmul fdiv feqb close Gs (map (vscale F fmul c) v0s) n
+    = operator_norm_sq F f0 fadd fmul fdiv feqb close Gs v0s n.
+Proof. intros F f0 f1 fadd fmul fsub fopp fdiv finv Fth feqb Hspec close c Hc Gs HGs. exact (operator_norm_scale_free F f0 f1 fadd fmul fsub fopp fdiv finv Fth feqb Hspec close c Hc Gs HGs). Qed.
+Print Assumptions C19_scale_free.
+
+(* a unit vector v: <v, A^H A v> <= s for every s with |A x|^2 <= s |x|^2 for all x (no supremum needed) *)
+Theorem C19_below_norm : forall A At : list R -> list R, (forall u w, dotR (A u) w = dotR u (At w)) ->
+  forall v s, dotR v v = 1%R -> (forall x, (dotR (A x) (A x) <= s * dotR x x)%R) -> (dotR v (G A At v) <= s)%R.
+Proof. exact unit_below_norm. Qed.
+Print Assumptions C19_below_norm.
+
+(* the same for the number the model reports: every squared estimate is <= every such s *)
+Theorem C19_estimate_below_norm : forall A At u q s, (forall x w, dotR (A x) w = dotR x (At w)) ->
+  (forall x, (dotR (A x) (A x) <= s * dotR x x)%R) -> rq R 0%R Rplus Rmult Rdiv Reqb' (G A At) u = Some q -> (q <= s)%R.
+Proof. exact model_estimate_below_norm. Qed.
+Print Assumptions C19_estimate_below_norm.
+
+(* Cauchy-Schwarz for finite sums (proved here, used twice in C19_monotone) *)
+Theorem C19_cauchy_schwarz : forall u v : list R, (dotR u v * dotR u v <= dotR u u * dotR v v)%R.
+Proof. exact cauchy_schwarz. Qed.
+Print Assumptions C19_cauchy_schwarz.
+
+(* consecutive squared estimates of the model never decrease: q(u) <= q(G u) *)
+Theorem C19_monotone : forall A At u q q', (forall x w, dotR (A x) w = dotR x (At w)) ->
+  rq R 0%R Rplus Rmult Rdiv Reqb' (G A At) u = Some q -> rq R 0%R Rplus Rmult Rdiv Reqb' (G A At) (G A At u) = Some q' -> (q <= q')%R.
+Proof. exact model_estimates_monotone. Qed.
+Print Assumptions C19_monotone.
+
+(* the documented 'upper bound' of LinearOperatorMatrix.operator_norm is not one: block row [I I] (open finding KF-02) *)
+Theorem C19_matrix_bound_refuted : exists x1 x2 : R,
+  matrix_norm_sq R 0%R Rplus Rmax [[1; 1]]%R = 1%R /\ (forall y, ((1 * y) * (1 * y) <= 1 * (y * y))%R) /\
+  ((1 * x1 + 1 * x2) * (1 * x1 + 1 * x2) > matrix_norm_sq R 0%R Rplus Rmax [[1; 1]]%R * (x1 * x1 + x2 * x2))%R.
+Proof. exact horizontal_rule_refuted. Qed.
+Print Assumptions C19_matrix_bound_refuted.
+
+(* the vertical rule is a bound: sum_i |A_i x|^2 <= (sum_i n_i^2) |x|^2, and it is what the model computes for one column *)
+Theorem C19_vertical_bound : forall X ys n2s, Forall2 (fun y n2 => (y <= n2 * X)%R) ys n2s -> (rsum ys <= rsum n2s * X)%R.
+Proof. exact vertical_rule_bound. Qed.
+Print Assumptions C19_vertical_bound.
+Theorem C19_vertical_rule_is_sum : forall a b c, matrix_norm_sq R 0%R Rplus Rmax [[a]; [b]] = (a + b)%R /\
+  matrix_norm_sq R 0%R Rplus Rmax [[a]; [b]; [c]] = (a + (b + c))%R.
+Proof. intros. split; reflexivity. Qed.
+Print Assumptions C19_vertical_rule_is_sum.
+
+(* a combination rule that is a bound for [A B]: |A x1 + B x2|^2 <= (a^2 + b^2)(|x1|^2 + |x2|^2) *)
+Theorem C19_sum_of_squares_bound_partial : forall u v a2 b2 X1 X2, (0 <= a2 -> 0 <= b2 -> 0 <= X1 -> 0 <= X2 ->
+  dotR u u <= a2 * X1 -> dotR v v <= b2 * X2 -> dotR (vaddR u v) (vaddR u v) <= (a2 + b2) * (X1 + X2))%R.
+Proof. exact horizontal_sum_of_squares_bound. Qed.
+Print Assumptions C19_sum_of_squares_bound_partial.
+
+(* ---- non-vacuity: runs of the executed instance ---- *)
+From Coq Require Import QArith.
+(* diag(3,1) (G = diag(9,1)), start (1,1): squared estimates 5, 365/41, .. increasing towards 9; the same at scale 1024 *)
+Example C19_example_run :
+  pnormQ [[[9#1;0#1];[0#1;1#1]]] (0#1) (0#1) [[1#1;1#1]] 3 = (0%nat, [(29525,3281)]%Z, [[(5,1)];[(365,41)];[(29525,3281)]]%Z)
+  /\ pnormQ [[[9#1;0#1];[0#1;1#1]]] (0#1) (0#1) [[1024#1;1024#1]] 3 = pnormQ [[[9#1;0#1];[0#1;1#1]]] (0#1) (0#1) [[1#1;1#1]] 3.
+Proof. vm_compute. split; reflexivity. Qed.
+Example C19_example_errors :
+  pnormQ [[[1#1]]] (0#1) (0#1) [[0#1]] 3 = (2%nat, [], []) /\ pnormQ [[[1#1]]] (0#1) (0#1) [[1#1]] 0 = (3%nat, [], []).
+Proof. vm_compute. split; reflexivity. Qed.
+Example C19_example_matrix_rule : matrix_normQ [[1#1;1#1]] = (1,1)%Z /\ matrix_normQ [[1#1;4#1];[2#1;1#1]] = (5,1)%Z.
+Proof. vm_compute. split; reflexivity. Qed.
